@@ -31,18 +31,18 @@ ANGLE_DS = {"image1": "sun_zen", "image2": "sat_zen", "image3": "rel_azi", "imag
 
 def tagged(n, m, k, kelvin=False):
     """row r, product k, column c -> r + 0.01 k + 0.005 (+273.15): stored integer 100 r + k"""
-    a = np.arange(n, dtype=float)[:, None] + 0.01 * k + 0.005 + np.zeros((1, m))
+    a = (np.arange(n) % 300).astype(float)[:, None] + 0.01 * k + 0.005 + np.zeros((1, m))      # (the files hold 16-bit integers)
     return a + 273.15 if kelvin else a
 
 
-def run_save(ctx, n, lead, trail, start, end, midnight, rng, nan_pixels=True):
+def run_save(ctx, n, lead, trail, start, end, midnight, rng, nan_pixels=True, interior=()):
     from pygac import gac_io
     m = 5
     prods = {p: tagged(n, m, k + 1, kelvin=p.startswith("bt")) for k, p in enumerate(PRODUCTS)}
     # azimuths are signed, temperatures below freezing are negative in degrees Celsius: truncation is toward zero
     prods["sun_azi"] = -prods["sun_azi"]
     prods["sat_azi"][::2] = -prods["sat_azi"][::2]
-    prods["bt4"] = prods["bt4"] - 2.0 * np.arange(n)[:, None]
+    prods["bt4"] = prods["bt4"] - 2.0 * (np.arange(n) % 150)[:, None]
     lats = np.arange(n, dtype=float)[:, None] * 0.1 + 0.0005 + np.zeros((1, m)) - 5.0
     lons = np.arange(n, dtype=float)[:, None] * 0.2 + 0.0005 + np.zeros((1, m)) - 7.0
     lats[:lead] = np.nan
@@ -50,6 +50,9 @@ def run_save(ctx, n, lead, trail, start, end, midnight, rng, nan_pixels=True):
     if trail:
         lats[n - trail:] = np.nan
         lons[n - trail:] = np.nan
+    for a_, b_ in interior:       # lines WITHOUT coordinates inside the pass: they stay rows of the files (filled), nothing is cut there
+        lats[a_:b_] = np.nan
+        lons[a_:b_] = np.nan
     nanpos = []
     if nan_pixels:
         for _ in range(3):
@@ -80,7 +83,7 @@ def run_save(ctx, n, lead, trail, start, end, midnight, rng, nan_pixels=True):
     out = os.path.join(ctx.scratch, "h5out")
     shutil.rmtree(out, ignore_errors=True)
     os.makedirs(out)
-    args = dict(n=n, lead=lead, trail=trail, start=start, end=end, midnight=midnight)
+    args = dict(n=n, lead=lead, trail=trail, start=start, end=end, midnight=midnight, interior=[list(x) for x in interior])
     try:
         with warnings.catch_warnings():
             warnings.simplefilter("ignore")
@@ -220,6 +223,16 @@ def direct_cases(ctx):
         rows = expected_rows(n, lead, trail, start, end)
         ctx.case((n, lead, trail, start, end, midnight), nontrivial=bool(lead or trail or start or end),
                  branch="direct/%s" % ("reject" if rows is None else ("reversed" if not rows else "rows")))
+    if ctx.thorough or getattr(ctx, "escalated", False):
+        # LONG passes (1300 lines) with a run of lines without coordinates INSIDE the pass, lying across line 512 or 1024: first
+        # and last line with a valid latitude are those of the whole pass
+        for (lead, interior, start, end) in [(0, [(1020, 1030)], 0, 0), (12, [(508, 516)], 0, 0), (0, [(1020, 1030)], 1100, 0),
+                                             (3, [(500, 530), (1023, 1026)], 5, 1290)]:
+            n, trail = 1300, 0
+            status, args, got = run_save(ctx, n, lead, trail, start, end, None, rng, interior=interior)
+            payload = dict(args, stream="direct")
+            check_files(ctx, status, args, got, payload)
+            ctx.case((n, lead, trail, start, end, "interior"), nontrivial=True, branch="direct/long-interior-gap")
     if not ctx.driver_ok:
         ctx.corr_break("lean driver unavailable: correspondence not run")
         return
@@ -369,7 +382,8 @@ def replay(ctx, path):
         print("replay: re-running the check")
         run(ctx)
         return 1 if ctx.input_violations else 0
-    status, args, got = run_save(ctx, p["n"], p["lead"], p["trail"], p["start"], p["end"], p["midnight"], random.Random(0))
+    status, args, got = run_save(ctx, p["n"], p["lead"], p["trail"], p["start"], p["end"], p["midnight"], random.Random(0),
+                                 interior=[tuple(x) for x in p.get("interior", [])])
     check_files(ctx, status, args, got, p)
     if ctx.input_violations:
         print("REPRODUCED: " + ctx.input_violations[0]["what"])
